@@ -1,20 +1,45 @@
 """C18 -- Creating a table is idempotent and race-safe.
 
-Proof      : coq/Props/C18.v over Model/Create.v: for every interleaving of any number of creators / openers on
-             storage with real mutual exclusion (exclusive lock, or conditional pointer creation under ANY lock): at
-             most one pointer creation succeeds; the pointer never changes afterwards; an existing table (pointer
-             intact or lost) is never re-initialised and every caller adopts it; with the exclusive lock every caller
-             ends on the same table.
-Tie        : real create_table / load_table / Table(...) calls (and a first appender) run as actors under the
-             scheduler on the local backend (real flock) and on S3StorageBackend over the in-memory conditional-write
-             S3 with a grant-everyone lock, from initial states {absent, healthy, pointer lost, only-v0 with pointer
-             lost}; their storage log is projected to model events (probe, lock, check, v0 write, pointer creation,
-             release, adopt) which `crun_strict` must accept; number of successful creations and the adopted identity
-             must agree.
-Oracle     : one table identity at the end: every caller's handle resolves to the same table_uuid; an existing
-             table's uuid, schema and rows are unchanged; the first appender's rows are in the table; a schema given at
-             creation is persisted and used by schema-less appends; with no schema anywhere an append raises and writes
-             nothing.
+Proof      : coq/Props/C18.v over Model/Create.v (creation machine; what a refused create-if-absent does is READ from
+             Gen/GenCommit.v) and Model/CreateSchema.v (kernels of Gen/GenCreateSchema.v), for every interleaving of any
+             number of creators / openers on storage with real mutual exclusion (exclusive lock, or conditional pointer
+             creation under ANY lock):
+               * at most one pointer creation ever succeeds; once every caller has returned EXACTLY one has, and it is the
+                 table in effect (C18_single_init, C18_exactly_one_init); the pointer never changes (C18_pointer_stable);
+               * an existing table in ANY state whose metadata files carry one identity (any number of versions, pointer
+                 intact / lost / dangling) is never re-initialised and every caller ends on it, any storage configuration
+                 (C18_existing_never_reinitialised, C18_existing_versions);
+               * what a race from nothing LEAVES BEHIND is such a table: only the winner's metadata file stays on storage, so
+                 recovery after a pointer loss finds the same table and every later caller ends on it
+                 (C18_race_leaves_one_table, C18_race_then_pointer_loss);
+               * same table: every call that returns after the publication is on the published table
+                 (C18_same_table_published); with the exclusive lock also before it (C18_same_table_partial, hypothesis
+                 lockkind = Excl); the full statement about the identity seen AT RETURN is refuted by a witness
+                 (C18_same_table_full_refuted: conditional writes + a lock that excludes nobody, an opener returns between two
+                 unpublished v0 files) -- Table handles hold no identity, so this is not a violation of the property text;
+               * schema: the schema given at creation is in v0 and is what a schema-less append uses; none (or one without
+                 fields) -> the append raises before its first storage write and the table is unchanged; after a race it is the
+                 schema of the one initialisation that took effect (C18_schema_persisted_and_used,
+                 C18_no_schema_append_raises, C18_schema_of_race).
+             NOT proved (oracle only): the first appender's COMMIT racing the creators (commits are C01's machine; no theorem
+             here says it lands on the winner's table), creators that die between steps, storage faults (re-sent requests).
+Tie        : real create_table / load_table / Table(...) calls (and a first appender) run as actors under the scheduler on
+             the local backend (real flock; opening and flock()ing the lock file are separate steps, and so is every storage
+             operation a backend's create_lock performs on the lock file) and on S3StorageBackend over the in-memory
+             conditional-write S3 with a grant-everyone lock, from initial states {absent, healthy, pointer lost, only-v0 with
+             pointer lost, (object store) pointer lost under more than one listing page of objects}; EVERY schedule with at most two preemptions for two creators of an absent table, bounded
+             enumeration + random otherwise.  The storage log is projected to model events (probe, lock, check, v0 write,
+             pointer creation, second resolution + removal of the own v0 after a refused creation, release, adopt) which
+             `crun_strict` must accept; compared: number of successful creations, v0 files left on storage, identity of the
+             final table, identity found after the pointer is then lost.  Runs in which a first appender's commit creates the
+             pointer before a creator does are outside the machine (oracle only; counted in stats).  Schema kernels: six schema
+             arguments, v0's (schemas, current_schema_id) and accept / raise of a schema-less append vs the model.
+Oracle     : one table identity at the end: every caller's handle resolves to the same table_uuid; an existing table's uuid,
+             schema and rows are unchanged; the first appender's rows are in the table; EPILOGUE of every run: the pointer of
+             the table the run left behind is deleted and the table opened again -- identity, persisted schemas and rows must
+             be those before the loss; a schema given at creation is persisted and used by schema-less appends; with no schema
+             anywhere an append raises and writes nothing; a creator dying after each of its steps; a re-sent pointer creation
+             answered 412.
 """
 from __future__ import annotations
 
@@ -28,17 +53,28 @@ from harness.lib import coqbuild, mems3, protocol as P, sched as S
 from harness.props import c01
 
 LEVEL = "proof"
-THEOREMS = ["C18_single_init", "C18_pointer_stable", "C18_existing_never_reinitialised", "C18_same_table", "C18_skeleton_regenerated"]
+THEOREMS = ["C18_single_init", "C18_exactly_one_init", "C18_pointer_stable", "C18_existing_never_reinitialised", "C18_existing_versions",
+            "C18_race_leaves_one_table", "C18_race_then_pointer_loss", "C18_same_table_published", "C18_same_table_partial",
+            "C18_same_table_full_refuted", "C18_skeleton_regenerated",
+            "C18_schema_persisted_and_used", "C18_no_schema_append_raises", "C18_schema_of_race"]
 REQ = ["DS.Model.Commit", "DS.Model.Create"]
 MANIFEST_ENTRY = {
-    "level_text": "C18 theorems proved in Coq for every interleaving of any number of creators/openers (single initialisation, "
-                  "pointer stability, existing tables never re-initialised, one identity under the exclusive lock); real "
-                  "create_table / load_table / Table() calls and a first appender are scheduled at storage-operation granularity on "
-                  "local and CAS-S3 backends from four initial states and trace-validated against the model; an implementation-only "
-                  "oracle checks single identity, preservation of an existing table, schema persistence and the no-schema error",
-    "level_note": "trusted: Coq kernel; translator/gen_commit.py (skeleton of initialize_table and the failure classes of the pointer creation: C18_skeleton_regenerated); scheduler harness and projection; recovery modelled as 'newest metadata file' (the code "
-                  "breaks ties by mtime, then listing order); in-memory S3 as in C08",
-    "technique": "Coq invariant proof over a creation machine with translator-regenerated skeleton + scheduled trace validation",
+    "level_text": "C18 theorems proved in Coq for every interleaving of any number of creators/openers on storage with real mutual "
+                  "exclusion: at most one / at rest exactly one initialisation, pointer stability, an existing table in any one-identity "
+                  "state never re-initialised, a race leaves only the winner's metadata behind (so a later pointer loss recovers the "
+                  "same table), every call returning after publication is on the published table (before it: only with the exclusive "
+                  "lock -- the full 'identity seen at return' statement is refuted by a witness), schema given at creation persisted and "
+                  "used, no schema -> append raises before any write; what a refused create-if-absent does and the schema kernels are "
+                  "regenerated from the source. NOT proved, oracle only: the first appender's commit racing creators, dying creators, "
+                  "storage faults. Real create_table / load_table / Table() calls and a first appender are scheduled at "
+                  "storage-operation granularity (lock-file creation included) on local and CAS-S3 backends from five initial states and "
+                  "trace-validated against the model; every run's final state is re-opened after deleting its pointer",
+    "level_note": "trusted: Coq kernel; translator/gen_commit.py (skeleton of initialize_table, failure classes of the pointer creation, "
+                  "_is_table_in_effect pinned: C18_skeleton_regenerated) and gen_createschema.py (source shapes pinned); scheduler harness "
+                  "and projection; recovery modelled as 'highest version, newest file' (the code breaks ties by mtime, then listing "
+                  "order; the harness clock makes mtimes distinct); in-memory S3 as in C08; C18_same_table_partial carries the extra "
+                  "hypothesis lockkind = Excl; a metadata file's content is abstracted to (identity, version)",
+    "technique": "Coq invariant proofs over a creation machine whose conflict handling and schema kernels are translator-regenerated + scheduled trace validation + pointer-loss epilogue oracle",
     "design_ref": "DESIGN.md section 5 C18",
 }
 
@@ -49,13 +85,15 @@ FIELDS_B = [{"id": 1, "name": "x", "type": "long", "required": False}, {"id": 2,
 
 def yield_filter(op: str, path: str, phase: tuple) -> bool:
     pcs = P.path_class(path)
-    if op in ("LockTry", "LockRel", "Fence", "Sleep"):
+    if op in ("LockTry", "LockFlock", "LockRel", "Fence", "Sleep"):
         return True
+    if pcs == "lock":
+        return True         # whatever a backend does to the lock file through its own storage operations (create_lock)
     if pcs == "hint" and op in ("exists", "read_file", "read_file_with_etag", "write_file", "write_file_cas"):
         return True
     if op == "list_files" and path.rstrip("/") == "metadata":
         return True
-    if op == "write_file" and pcs == "meta":
+    if op in ("write_file", "delete_file") and pcs == "meta":
         return True
     return False
 
@@ -116,6 +154,9 @@ def run_case(ctx, backend: str, init: str, kinds: List[str], chooser_factory, re
     from datashard.storage_backend import LocalStorageBackend
     sc = S.Scheduler()
     sc.yield_filter = yield_filter
+    # the lock file of a table that does not exist yet is created by whoever comes first: opening (creating) it and
+    # flock()ing the inode that open returned are separate steps of every file-lock attempt
+    sc.fine_locks = backend == "local"
     root = os.path.join(ctx.scratch, "c18")
     shutil.rmtree(root, ignore_errors=True)
     store = mems3.MemS3(sc.now_ms) if backend == "s3cas" else None
@@ -172,10 +213,15 @@ def run_case(ctx, backend: str, init: str, kinds: List[str], chooser_factory, re
         pre = None
         if init != "absent":
             t0 = datashard.create_table(root, Schema(schema_id=7, fields=FIELDS))
-            if init in ("healthy", "pointer_lost"):
+            if init in ("healthy", "pointer_lost", "pointer_lost_big"):
                 t0.append_records([{"x": -1}])
             pre = P.read_table_independent(fetch)
-            if init in ("pointer_lost", "v0_pointer_lost"):
+            if init == "pointer_lost_big":
+                # a table with a long history: more than one listing page of (unreferenced) manifests under metadata/
+                for k in range(1100):
+                    store._put(f"tbl/metadata/manifests/old-{k:04d}.avro", b"")
+                store.SERVER_PAGE = 1000        # the real service's page size (the default of the fake is tiny, to exercise paging)
+            if init in ("pointer_lost", "v0_pointer_lost", "pointer_lost_big"):
                 drop_pointer()
         sc.log.clear()
         for i, k in enumerate(kinds):
@@ -228,12 +274,25 @@ def run_case(ctx, backend: str, init: str, kinds: List[str], chooser_factory, re
         out["pre"] = pre
         out["meta_files"] = sorted(k for k in (store.objects if store is not None else []) if "/metadata/v" in k) if store is not None else \
             sorted(f for f in os.listdir(os.path.join(root, "metadata")) if f.startswith("v") and f.endswith(".metadata.json"))
+        # which caller's initialisation wrote each identity still on storage (99 = the table that existed before)
+        wrote_path = {e["path"].rsplit("/", 1)[-1]: int(e["actor"][1:]) for e in sc.log
+                      if e["op"] == "write_file" and P.path_class(e["path"]) == "meta" and "MetadataManager.initialize_table" in e["phase"]}
+        out["uuid_writer"] = {}
+        for mf in out["meta_files"]:
+            base = mf.rsplit("/", 1)[-1]
+            if base in wrote_path:
+                try:
+                    out["uuid_writer"][json.loads(fetch("metadata/" + base))["table_uuid"]] = wrote_path[base]
+                except Exception:       # noqa: BLE001
+                    pass
+        if pre is not None:
+            out["uuid_writer"][pre["meta"]["table_uuid"]] = 99
         try:
             out["final"] = P.read_table_independent(fetch)
         except Exception as e:
             out["final"] = {"error": repr(e)[:200]}
             pointer_gone = (("tbl/" + P.HINT) not in store.objects) if store is not None else not os.path.exists(os.path.join(root, P.HINT))
-            if pointer_gone and init in ("pointer_lost", "v0_pointer_lost"):
+            if pointer_gone and init in ("pointer_lost", "v0_pointer_lost", "pointer_lost_big"):
                 # creators / openers do not rewrite a lost pointer (only a commit does): the table is then what the recovery
                 # rule says -- the highest metadata version on storage -- read here independently of the library
                 import re as _re
@@ -245,6 +304,21 @@ def run_case(ctx, backend: str, init: str, kinds: List[str], chooser_factory, re
                         out["final_via_recovery"] = best
                     except Exception as e2:
                         out["final"] = {"error": repr(e2)[:200]}
+        # EPILOGUE (every run that ended on a readable table with a pointer): the state this run LEFT BEHIND is an initial
+        # state of its own -- lose the pointer now and open the table again.  What the library then serves (identity, persisted
+        # schemas, rows) is compared by the oracle with the table as it was before the pointer was lost.
+        out["after_pointer_loss"] = None
+        if "error" not in out["final"] and "final_via_recovery" not in out and not out["deadlock"] and out.get("died") is None:
+            try:
+                drop_pointer()
+                t2 = datashard.load_table(root)
+                md2 = t2.metadata_manager.refresh()
+                out["after_pointer_loss"] = {
+                    "table_uuid": md2.table_uuid, "current_schema_id": md2.current_schema_id,
+                    "schemas": [(sch.schema_id, [(f.get("id"), f.get("name"), f.get("type")) for f in sch.fields]) for sch in md2.schemas],
+                    "rows": sorted(r.get("x") for r in t2.scan())}
+            except Exception as e3:     # noqa: BLE001
+                out["after_pointer_loss"] = {"error": repr(e3)[:200]}
     return out
 
 
@@ -287,6 +361,24 @@ def oracle(out: Dict[str, Any]) -> Optional[str]:
     elif any(k in ("create_append", "create_b_append") for k in out["kinds"]):
         if sorted(r["x"] for r in fin["rows"]) != [4242] * sum(1 for k in out["kinds"] if k in ("create_append", "create_b_append")):
             return f"first appender's rows not in the table: {fin['rows']}"
+    return pointer_loss_oracle(out)
+
+
+def pointer_loss_oracle(out: Dict[str, Any]) -> Optional[str]:
+    """The table a run left behind, with its pointer then lost, is still THAT table (identity, persisted schemas, data)."""
+    apl, fin = out.get("after_pointer_loss"), out["final"]
+    if apl is None:
+        return None
+    if "error" in apl:
+        return f"the table this run left behind cannot be opened once its pointer is lost: {apl['error']}"
+    if apl["table_uuid"] != fin["meta"]["table_uuid"]:
+        return (f"the table this run left behind has identity {fin['meta']['table_uuid']}; once its pointer is lost, a fresh handle is on "
+                f"identity {apl['table_uuid']}: the identity of an existing table was replaced (metadata files: {out['meta_files']})")
+    want = [(sch["schema_id"], [(f.get("id"), f.get("name"), f.get("type")) for f in sch["fields"]]) for sch in fin["meta"]["schemas"]]
+    if [(i, [tuple(x) for x in fs]) for i, fs in apl["schemas"]] != want or apl["current_schema_id"] != fin["meta"]["current_schema_id"]:
+        return f"once the pointer is lost the persisted schema of the table is replaced: {apl['schemas']} vs {want}"
+    if apl["rows"] != sorted(r["x"] for r in fin["rows"]):
+        return f"once the pointer is lost the committed data changes: {apl['rows']} vs {sorted(r['x'] for r in fin['rows'])}"
     return None
 
 
@@ -297,17 +389,33 @@ def project(out: Dict[str, Any]) -> Tuple[List[Tuple[int, str]], List[str]]:
     decided by the LAST operation of its refresh (pointer read, or the recovery listing when the pointer is absent)."""
     items: List[List[Any]] = []          # [key, actor index, text]
     st: Dict[str, Dict[str, Any]] = {}
-    ext_holder: Optional[str] = None     # a COMMIT (the first appender's; C01's machine) holding the table lock
-    for idx, e in enumerate(out["log"]):
+    log = out["log"]
+    # a file-lock attempt is decided by its flock() (a step of its own on the local backend), not by its beginning
+    decided: Dict[int, int] = {}
+    for idx, e in enumerate(log):
+        if e["op"] == "LockTry":
+            decided[idx] = idx
+            for j in range(idx + 1, len(log)):
+                if log[j]["actor"] == e["actor"]:
+                    if log[j]["op"] == "LockFlock":
+                        decided[idx] = j
+                    break
+    # intervals during which a COMMIT (the first appender's; C01's machine) holds the table lock
+    held: List[Tuple[int, int]] = []
+    open_at: Dict[str, int] = {}
+    for idx, e in enumerate(log):
+        if "MetadataManager.initialize_table" not in e["phase"]:
+            if e["op"] == "LockTry" and e["result"] == "ok":
+                open_at[e["actor"]] = decided[idx]
+            elif e["op"] == "LockRel" and e["actor"] in open_at:
+                held.append((open_at.pop(e["actor"]), idx))
+    held += [(start, len(log)) for start in open_at.values()]
+    for idx, e in enumerate(log):
         a, op, path, phase, result = e["actor"], e["op"], e["path"], e["phase"], e["result"]
         ai = int(a[1:])
         s = st.setdefault(a, {"stage": "probe", "probe": None, "check": None, "adopt": None})
         pcs = P.path_class(path)
-        if "MetadataManager.initialize_table" not in phase:
-            if op == "LockTry" and result == "ok":
-                ext_holder = a
-            elif op == "LockRel" and ext_holder == a:
-                ext_holder = None
+        ext_holder = op == "LockTry" and any(start < decided[idx] <= end for start, end in held)
         if any(p.startswith("Transaction.") for p in phase) or "Table.append_records" in phase:
             continue      # the appender's transaction: C01's machine
         in_init = "MetadataManager.initialize_table" in phase
@@ -320,16 +428,21 @@ def project(out: Dict[str, Any]) -> Tuple[List[Tuple[int, str]], List[str]]:
                 s["probe"][0] = idx
             if op == "list_files" or (pcs == "hint" and op == "read_file"):
                 s["refresh_done"] = True      # later refreshes of the same call (create_table's schema check) are not the probe
-        elif in_init and op == "LockTry" and result != "ok" and ext_holder is not None:
+        elif in_init and op == "LockTry" and result != "ok" and ext_holder:
             # the lock is held by a committer, which Model/Create.v does not contain: a failed try is a stutter step
             if s["probe"] is not None:
                 s["probe"][2] = "CProbe false"
             s["stage"] = "lockwait"
+            s["locktry"] = None
         elif in_init and op == "LockTry":
             if s["probe"] is not None:
                 s["probe"][2] = "CProbe false"
-            items.append([idx, ai, f"CLockTry {'true' if result == 'ok' else 'false'}"])
+            s["locktry"] = [idx, ai, f"CLockTry {'true' if result == 'ok' else 'false'}"]
+            items.append(s["locktry"])
             s["stage"] = "check" if result == "ok" else "lockwait"
+        elif in_init and op == "LockFlock":
+            if s.get("locktry") is not None:
+                s["locktry"][0] = idx       # the attempt is decided by its flock(), a step of its own
         elif in_init and s["stage"] == "check" and is_resolve_op:
             if s["check"] is None:
                 s["check"] = [idx, ai, "CCheck true"]
@@ -342,6 +455,19 @@ def project(out: Dict[str, Any]) -> Tuple[List[Tuple[int, str]], List[str]]:
             items.append([idx, ai, "CMetaW"])
         elif in_init and op in ("write_file", "write_file_cas") and pcs == "hint":
             items.append([idx, ai, f"CPtrCreate {'true' if result == 'ok' else 'false'}"])
+            if result != "ok":
+                s["stage"] = "conflict"
+        elif in_init and s["stage"] == "conflict" and is_resolve_op:
+            # the refused creator resolves the table again (_is_table_in_effect): "this one" unless a removal of its v0 follows
+            if s.get("recheck") is None:
+                s["recheck"] = [idx, ai, "CRecheck true"]
+                items.append(s["recheck"])
+            else:
+                s["recheck"][0] = idx
+        elif in_init and s["stage"] == "conflict" and op == "delete_file" and pcs == "meta":
+            if s.get("recheck") is not None:
+                s["recheck"][2] = "CRecheck false"
+            items.append([idx, ai, "CDiscard"])
         elif in_init and op == "LockRel":
             items.append([idx, ai, "CRelease"])
             s["stage"] = "adopt"
@@ -365,11 +491,14 @@ def project(out: Dict[str, Any]) -> Tuple[List[Tuple[int, str]], List[str]]:
 def model_expr(out: Dict[str, Any], evs: List[Tuple[int, str]]) -> str:
     n = len(out["kinds"])
     cfgs = "{| cas := %s; lockkind := %s |}" % (("true", "GrantAll") if out["backend"] == "s3cas" else ("false", "Excl"))
-    init = {"absent": "absent", "healthy": "existing 99%nat false", "pointer_lost": "existing 99%nat true", "v0_pointer_lost": "existing 99%nat true"}[out["init"]]
+    # the existing table: owner 99, metadata versions 0..k on storage (healthy / pointer_lost: one commit was made)
+    init = {"absent": "absent", "healthy": "existing_n 99%nat 1%nat false", "pointer_lost": "existing_n 99%nat 1%nat true",
+            "pointer_lost_big": "existing_n 99%nat 1%nat true", "v0_pointer_lost": "existing_n 99%nat 0%nat true"}[out["init"]]
     ev = "[" + "; ".join(f"{{| ce_actor := {ai}%nat; ce_kind := {k} |}}" for ai, k in evs) + "]"
+    code = "(fun o => match o with Some u => Z.of_nat (S (S u)) | None => 1 end)"
     return (f"match crun_strict {cfgs} ({init}) {ev} 0%nat with "
-            f"| inl w => (1, (Z.of_nat (List.length (c_creates w)), Z.of_nat (List.length (c_files w)), "
-            f"map (fun a => Z.of_nat (adopted_code (c_pc w a))) (seq 0%nat {n}%nat))) | inr i => (0, (Z.of_nat i, 0, [])) end")
+            f"| inl w => (1, (Z.of_nat (List.length (c_creates w)), Z.of_nat (List.length (live_files w)), "
+            f"[{code} (table_id w); {code} (table_id (lose_ptr w))])) | inr i => (0, (Z.of_nat i, 0, [])) end")
 
 
 def explore(ctx, backend: str, init: str, kinds: List[str], max_preempt: int, limit: int):
@@ -394,45 +523,106 @@ def explore(ctx, backend: str, init: str, kinds: List[str], max_preempt: int, li
                         queue.append(dev + ((i, b),))
 
 
-def sequential_schema_checks(ctx) -> None:
-    """Schema persisted and used by schema-less appends; no schema anywhere -> append raises and writes nothing."""
+SCHEMA_ARGS: List[Optional[Tuple[int, List[Dict[str, Any]]]]] = [
+    None, (5, []), (0, []), (0, FIELDS), (3, FIELDS), (1, FIELDS_B),
+]
+
+
+def schema_cases(ctx) -> Tuple[List[str], List[Dict[str, Any]]]:
+    """Oracle + correspondence of the schema kernels (Gen/GenCreateSchema.v through Model/CreateSchema.v): for every schema
+    argument -- none, one without fields, ids 0 / non-0, one / two fields -- the v0 metadata a creation writes carries the
+    (schemas, current_schema_id) of v0_schemas; a schema-less append through a fresh handle uses table_schema, or raises and
+    writes nothing when there is none."""
     import datashard
     from datashard.data_structures import Schema
-    root = os.path.join(ctx.scratch, "c18-seq")
-    shutil.rmtree(root, ignore_errors=True)
-    t = datashard.create_table(root, Schema(schema_id=3, fields=FIELDS))
-    t2 = datashard.load_table(root)
-    t2.append_records([{"x": 5}])
-    if sorted(r["x"] for r in datashard.load_table(root).scan()) != [5]:
-        ctx.violation("schema-not-persisted", "schema given at creation is not used by a schema-less append", {"case": "persist"})
-    root2 = os.path.join(ctx.scratch, "c18-seq2")
-    shutil.rmtree(root2, ignore_errors=True)
-    t3 = datashard.create_table(root2)
-    before = sorted(os.listdir(os.path.join(root2, "data"))) + sorted(os.listdir(os.path.join(root2, "metadata")))
+    exprs, impls = [], []
+    for k, arg in enumerate(SCHEMA_ARGS):
+        root = os.path.join(ctx.scratch, f"c18-schema-{k}")
+        shutil.rmtree(root, ignore_errors=True)
+        datashard.create_table(root, None if arg is None else Schema(schema_id=arg[0], fields=[dict(f) for f in arg[1]]))
+        meta = P.read_table_independent(root)["meta"]
+        impl: Dict[str, Any] = {"schemas": [(sc["schema_id"], len(sc["fields"])) for sc in meta["schemas"]], "current": meta["current_schema_id"]}
+
+        def listing() -> List[str]:
+            out = []
+            for d, _ds, fs in os.walk(root):
+                out += [os.path.relpath(os.path.join(d, f), root) for f in fs if not f.endswith(".lock")]
+            return sorted(out)
+        before = listing()
+        row = {"x": 5}
+        try:
+            datashard.load_table(root).append_records([row])
+            impl["append"] = "ok"
+            got = datashard.load_table(root).scan()
+            want_cols = [f["name"] for f in arg[1]] if arg else []
+            if [sorted(r.keys()) for r in got] != [sorted(want_cols)] or got[0].get("x") != 5:
+                ctx.violation("schema-not-persisted", f"create_table(schema={arg}) then a schema-less append: the row read back is {got}, "
+                              f"not one row over the columns {want_cols} of the schema given at creation", {"schema_arg": k})
+        except ValueError as e:
+            impl["append"] = "raises" if "No schema available" in str(e) else "raises-other: " + str(e)[:80]
+            after = listing()
+            if after != before:
+                ctx.violation("no-schema-append-wrote", f"create_table(schema={arg}): the rejected schema-less append left files behind: "
+                              f"{sorted(set(after) - set(before))}", {"schema_arg": k})
+        usable = arg is not None and len(arg[1]) > 0
+        if usable and impl["append"] != "ok":
+            ctx.violation("schema-not-used", f"create_table(schema={arg}) then a schema-less append: {impl['append']}", {"schema_arg": k})
+        if not usable and impl["append"] == "ok":
+            ctx.violation("no-schema-append-accepted", f"create_table(schema={arg}): an append without any available schema did not raise",
+                          {"schema_arg": k})
+        if usable and (arg[0], len(arg[1])) not in impl["schemas"]:
+            ctx.violation("schema-not-persisted", f"create_table(schema={arg}): the v0 metadata carries the schemas {impl['schemas']}", {"schema_arg": k})
+        ctx.count(1, ("schema", k))
+        if arg is None:
+            term = "None"
+        else:
+            fs = "; ".join(f"{{| fid := {f['id']}%Z; fname := {f['id']}%Z; ftype := {'T_long' if f['type'] == 'long' else 'T_string'}; fspell := 0%Z; freq := false |}}"
+                           for f in arg[1])
+            term = f"(Some {{| sid := {arg[0]}%Z; sfields := [{fs}]; sstring := 0%Z |}})"
+        exprs.append(f"(map (fun s => (sid s, Z.of_nat (List.length (sfields s)))) (fst (v0_schemas {term})), snd (v0_schemas {term}), "
+                     f"match table_schema {term} with Some s => (1, sid s) | None => (0, 0) end)")
+        impls.append({"arg": arg and [arg[0], len(arg[1])], **impl})
+    return exprs, impls
+
+
+def schema_replay(ctx, k: int) -> int:
+    before = len(ctx.violations) if hasattr(ctx, "violations") else 0
+    saved = SCHEMA_ARGS[:]
     try:
-        t3.append_records([{"x": 1}])
-        ctx.violation("no-schema-append-accepted", "append without any available schema did not raise", {"case": "noschema"})
-    except ValueError:
-        pass
-    after = sorted(os.listdir(os.path.join(root2, "data"))) + sorted(os.listdir(os.path.join(root2, "metadata")))
-    infl = os.path.join(root2, "metadata", "inflight")
-    if before != after or (os.path.isdir(infl) and os.listdir(infl)):
-        ctx.violation("no-schema-append-wrote", f"rejected schema-less append left files behind: {set(after) - set(before)}", {"case": "noschema"})
-    ctx.count(2)
+        SCHEMA_ARGS[:] = [saved[k]]
+        schema_cases(ctx)
+    finally:
+        SCHEMA_ARGS[:] = saved
+    return before
 
 
 def run(ctx) -> None:
     ctx.rule = ("schedules of 2-3 creators/openers (create_table, load_table, Table(), create+first append) at storage-operation "
-                "granularity x initial state {absent, healthy, pointer lost, v0 only + pointer lost} x {local flock, CAS-S3 with a "
-                "grant-everyone lock}; bounded-preemption enumeration + random; distinct = executed schedule")
+                "granularity (lock-file creation: open / flock / backend writes are steps) x initial state {absent, healthy, pointer lost, "
+                "v0 only + pointer lost, pointer lost + >1 listing page (object store)} x {local flock, CAS-S3 with a grant-everyone lock}; all <=2-preemption schedules for two creators "
+                "of an absent table, bounded-preemption enumeration + random otherwise; every run followed by a pointer loss + reopen; "
+                "six schema arguments; distinct = executed schedule")
     ctx.trusted_base += ["harness/lib/sched.py, mems3.py; harness/props/c18.py projection of storage calls onto creation events"]
-    ctx.proofs(THEOREMS, gen_files=["GenCommit.v"])
+    ctx.proofs(THEOREMS, gen_files=["GenCommit.v", "GenCreateSchema.v"])
     ctx.allow_axioms([])
     quick = ctx.tier == "quick"
-    sequential_schema_checks(ctx)
+    s_exprs, s_impls = schema_cases(ctx)
+    try:
+        s_vals = coqbuild.coq_eval(["DS.Gen.GenSchema", "DS.Model.Schema", "DS.Model.CreateSchema"], s_exprs)
+    except RuntimeError as e:
+        ctx.proof_problems.append("model evaluation (schema kernels) failed: " + str(e)[:800])
+        s_vals = []
+    s_bad = []
+    for impl, val in zip(s_impls, s_vals):
+        schemas, cur, (has, sid_) = val
+        model = {"schemas": [tuple(x) for x in schemas], "current": cur, "append": "ok" if has == 1 else "raises"}
+        got = {"schemas": [tuple(x) for x in impl["schemas"]], "current": impl["current"], "append": impl["append"]}
+        if model != got or (has == 1 and sid_ != impl["arg"][0]):
+            s_bad.append({"schema_arg": impl["arg"], "model": model, "impl": got})
+    ctx.correspondence("create-schema", len(s_vals), s_bad)
     plans = []
     for backend in ("local", "s3cas"):
-        for init in ("absent", "healthy", "pointer_lost", "v0_pointer_lost"):
+        for init in ("absent", "healthy", "pointer_lost", "v0_pointer_lost") + (("pointer_lost_big",) if backend == "s3cas" else ()):
             sets = [["create", "create"], ["create", "create_append"], ["create", "open"], ["table", "create", "create"]]
             if quick:
                 sets = sets[:2] if init == "absent" else sets[1:2]
@@ -444,7 +634,9 @@ def run(ctx) -> None:
     total = 0
     outside = [0]
     for backend, init, kinds in plans:
-        runs = list(explore(ctx, backend, init, kinds, 2 if quick else 3, (22 if init == "absent" else 6) if quick else 300))
+        # two creators of a table that does not exist yet (nor does its lock file): EVERY schedule with at most two preemptions
+        full = init == "absent" and kinds == ["create", "create"]
+        runs = list(explore(ctx, backend, init, kinds, 2 if quick else 3, (600 if full else 22 if init == "absent" else 6) if quick else 1500 if full else 300))
         for k in range(2 if quick else 40):
             seed = ctx.rng.randrange(1 << 30)
             runs.append(([("random", seed)], run_case(ctx, backend, init, kinds, lambda sc, seed=seed: S.random_chooser(_r.Random(seed), 0.4))))
@@ -499,30 +691,56 @@ def run(ctx) -> None:
         vals = []
     two_files = 0
     for (backend, init, kinds, dev, out, evs), val in zip(metas, vals):
-        ok, (ncreates, nfiles, codes) = val
+        ok, (ncreates, nlive, codes) = val
         if ok != 1:
             bad.append({"backend": backend, "init": init, "kinds": kinds, "schedule": out["schedule"], "rejected_event_index": ncreates,
                         "events": evs[max(0, ncreates - 5): ncreates + 1]})
             continue
         impl_creates = sum(1 for e in out["log"] if "MetadataManager.initialize_table" in e["phase"] and e["op"] in ("write_file", "write_file_cas")
                            and P.path_class(e["path"]) == "hint" and e["result"] == "ok")
-        impl_files = len(out["meta_files"]) - (0 if "create_append" not in kinds else sum(1 for f in out["meta_files"] if "/v1-" in f or f.startswith("v1-")))
         impl_v0 = sum(1 for f in out["meta_files"] if f.rsplit("/", 1)[-1].startswith("v0"))
         two_files += 1 if impl_v0 > 1 else 0
-        model_v0 = nfiles if init == "absent" else nfiles
-        if ncreates != impl_creates or (init == "absent" and model_v0 != impl_v0):
-            bad.append({"backend": backend, "init": init, "kinds": kinds, "schedule": out["schedule"],
-                        "model": {"creates": ncreates, "v0_files": model_v0}, "impl": {"creates": impl_creates, "v0_files": impl_v0}})
+        model = {"creates": ncreates, "table": codes[0], "table_after_pointer_loss": codes[1]}
+        impl: Dict[str, Any] = {"creates": impl_creates}
+        if init == "absent":
+            # metadata files left on storage (an appender's v1.. are not the creation machine's)
+            model["v0_files_left"], impl["v0_files_left"] = nlive, impl_v0
+
+        def code_of(u: Optional[str]) -> Optional[int]:
+            return None if u is None else (out["uuid_writer"][u] + 2 if u in out["uuid_writer"] else -1)
+        fin, apl = out["final"], out.get("after_pointer_loss")
+        impl["table"] = code_of(fin["meta"]["table_uuid"]) if "error" not in fin else 1
+        committed = any(not f.rsplit("/", 1)[-1].startswith("v0") for f in out["meta_files"]) and init == "absent"
+        if apl is not None and "error" not in apl and not committed:
+            # (a first appender's commit wrote v1: recovery prefers it to every v0; commits are not in the creation machine --
+            # the oracle has judged the run)
+            impl["table_after_pointer_loss"] = code_of(apl["table_uuid"])
+        else:
+            model.pop("table_after_pointer_loss")
+        if model != impl:
+            bad.append({"backend": backend, "init": init, "kinds": kinds, "schedule": out["schedule"], "model": model, "impl": impl})
     ctx.stats["runs_with_two_v0_files"] = two_files
+    ctx.stats["runs_where_a_refused_creator_removed_its_v0"] = sum(1 for m in metas if any(k == "CDiscard" for _a, k in m[5]))
     ctx.stats["runs_outside_creation_model_commit_created_pointer"] = outside[0]
     if metas:
         b, i, k, d, o, e = metas[0]
         ctx.sample({"backend": b, "init": i, "kinds": k, "schedule": o["schedule"], "model_events": e})
-    ctx.correspondence("create-trace", total, bad)
+    ctx.stats["runs_compared_with_the_creation_machine"] = len(metas)
+    ctx.correspondence("create-trace", len(metas), bad)
 
 
 def replay(ctx, payload) -> int:
     c = payload.get("case", {})
+    if "schema_arg" in c:
+        seen: List[str] = []
+        real_violation = ctx.violation
+        ctx.violation = lambda key, what, payload=None: seen.append(what)      # type: ignore[assignment]
+        try:
+            schema_replay(ctx, int(c["schema_arg"]))
+        finally:
+            ctx.violation = real_violation                                      # type: ignore[assignment]
+        print("replay:", "STILL FAILS: " + seen[0] if seen else "passes now")
+        return 1 if seen else 0
     if "kinds" not in c:
         print("replay: no concrete case")
         return 2
